@@ -1,7 +1,7 @@
 # C04 — the shuffle verifier accepts only complete proofs whose every equation holds
 import copy, itertools
 from props.util import *
-from props import shuf, wire
+from props import shuf, wire, twprover
 
 TRUSTED = BASE_TRUSTED + ["computational soundness (existence of a permutation witness under DL/ROM) is NOT claimed; what is proved is that the code-shaped verifier decides exactly the declarative TW predicate with all length requirements"]
 RULE = ("honest statements (N<=3 on p=23/2039/16-bit, N<=2 at 62 bits, N=1 at 2048 bits) and for each: every single-field "
@@ -112,6 +112,25 @@ def run(env):
                 seen.add(fam)
             keep.append(c)
         cases = keep
+    # adversarial prover (props/twprover.py): proofs whose malicious part is committed BEFORE the challenge
+    for fl in "BM":
+        for pstr, N in (("2039", 1), ("2039", 3), (str(P62), 2)):
+            ctx = "%s:%s" % (fl, pstr); P_, q_, g_ = pq(ctx)
+            sp = [x for x in live if x["ctx"] == ctx and x["n"] == N]
+            gens = env.harness([{"ctx": ctx, "op": "generators", "args": [str(N + 1), "x:"], "tag": "forger"}])[0]
+            pk = str(pow(g_, 7, P_)); es = [[str(rnd_member(r, ctx)), str(rnd_member(r, ctx))] for _ in range(N)]
+            perm = list(range(N)); r.shuffle(perm)
+            modes = ["honest", "surplus_t_hats", "break_eq:1", "break_eq:2", "break_eq:3", "break_eq:41", "break_eq:42", "break_chain:%d" % (N - 1)]
+            for mode in modes:
+                for surplus in ((1, 2) if mode == "surplus_t_hats" else (1,)):
+                    out_j, pfb = twprover.build(env, ctx, pk, gens, es, "x:66", perm, r, mode=mode, surplus=surplus)
+                    if pfb is None:
+                        continue
+                    c = {"ctx": ctx, "op": "check_proof", "args": [pk, gens, pfb, es, out_j, "x:66"], "tag": "forger-" + mode,
+                         "_must_reject": mode != "honest", "_reject_or_error": mode != "honest", "_sp": ctx}
+                    if mode == "honest":
+                        c["tag"] = "honest"
+                    cases.append(c)
     outs = env.harness(cases)
     for c, o in zip(cases, outs):
         items.append((c, c["ctx"], "check_proof", c["args"], o))
@@ -123,6 +142,9 @@ def run(env):
             env.violation("check_proof panics on %s input (%s)" % (c["tag"], c["ctx"]), {"kind": "battery", "case": c, "out": o}, key="F1-panic")
         elif c["_must_reject"] and o is True:
             env.violation("check_proof ACCEPTS a %s proof on %s" % (c["tag"], c["ctx"]), {"kind": "battery", "case": c, "out": o})
+        elif c["tag"].startswith("forger-") and o is True:
+            env.violation("check_proof ACCEPTS an adversarially built proof (%s) on %s" % (c["tag"], c["ctx"]),
+                          {"kind": "battery", "case": c, "out": o})
         elif c["tag"] in ("lengths", "no-chain-proofs", "short-outputs", "long-outputs", "N=0") and o is True:
             env.violation("check_proof ACCEPTS a proof with wrong component counts (%s) on %s" % (c["tag"], c["ctx"]),
                           {"kind": "battery", "case": c, "out": o}, key="F1-accept")
